@@ -141,6 +141,13 @@ QNcFixed == <<
   << MkDecl(32, <<>>, NameFields(<< L(<< <<0, 0>>, <<2, 3>> >>), LA(<< <<0, 0>>, <<2, 3>> >>, 4, 4), LA(<< <<0, 0>>, <<2, 3>> >>, 3, 8),
                                     LS(<< <<4, 7>>, <<12, 15>> >>), LSA(<< <<4, 7>>, <<12, 15>> >>, 2, 16), L(<< <<0, 0>>, <<2, 3>> >>) >>), <<>>, <<>>, FALSE),
      MkDecl(24, <<>>, NameFields(<< LA(<< <<1, 1>>, <<0, 0>> >>, 4, 2), LA(<< <<1, 1>>, <<0, 0>> >>, 3, 8), L(<< <<1, 1>>, <<0, 0>> >>) >>), <<>>, <<>>, FALSE) >> \o
+  (* a bare single bit written directly below / directly above a multi-bit range of the same list, and the other way round:
+     adjacent items stay separate items in list order (nothing is merged, nothing is reordered) *)
+  << MkDecl(16, <<>>, NameFields(<< LS(<< <<9, 15>>, <<8, 8>> >>), L(<< <<9, 15>>, <<8, 8>> >>), LS(<< <<0, 6>>, <<7, 7>> >>),
+                                    L(<< <<1, 3>>, <<0, 0>>, <<4, 4>> >>), L(<< <<8, 8>>, <<1, 7>> >>), LS(<< <<8, 8>>, <<9, 15>> >>),
+                                    LA(<< <<1, 2>>, <<0, 0>> >>, 4, 4), L(<< <<5, 6>>, <<4, 4>>, <<3, 3>>, <<7, 7>> >>) >>), <<>>, <<>>, FALSE),
+     MkDecl(64, <<>>, NameFields(<< LS(<< <<33, 63>>, <<32, 32>> >>), LS(<< <<1, 7>>, <<0, 0>> >>),
+                                    L(<< <<40, 62>>, <<39, 39>>, <<63, 63>> >>), LSA(<< <<9, 15>>, <<8, 8>> >>, 3, 16) >>), <<>>, <<>>, FALSE) >> \o
   (* list arrays whose element 0 lies in the low half (quarter) of the storage while later elements cross into the upper part:
      an accessor must not size its arithmetic by element 0 alone *)
   [k \in 1..8 |-> LET W == <<16, 32, 64, 128, 24, 40, 100, 127>>[k] IN
